@@ -193,4 +193,12 @@ Definition safe_state (s : state) : bool :=
       then match todo s with [] => true | _ => false end && Nat.eqb (cnt is_run (pcs s)) 0
            && Nat.eqb (cnt is_parked (pcs s)) 0
       else true).
+
+(* ---- no lost wake-up, as a predicate on states (evaluated by the model driver on the model's states and by the
+   Go runner on the states of the real code after every atomic step): while some runner sleeps in Wait without
+   having been signalled, every queued item has a runner of its own on its way to the queue (at the loop head, or
+   signalled and about to re-acquire the mutex).  ParWorkProofs.wakeup_per_item proves it for all reachable states. *)
+Definition wakeup_ok (s : state) : bool :=
+  Nat.eqb (cnt is_parked (pcs s)) 0
+  || Nat.leb (length (todo s)) (cnt is_top (pcs s) + cnt is_woken (pcs s)).
 End Work.
